@@ -166,7 +166,7 @@ func (propC08) Gen(r *Rand) *Plan {
 				}
 				tp.Ops = append(tp.Ops, Op{Op: "call", S: flipCase(r, name), I: via, Vs: vs})
 			case 6:
-				tp.Ops = append(tp.Ops, Op{Op: "panicfn", I: r.Intn(2)})
+				tp.Ops = append(tp.Ops, Op{Op: "panicfn", I: r.Intn(2), J: r.Intn(1 << 16)})
 			}
 		}
 		p.Tasks = append(p.Tasks, tp)
@@ -229,8 +229,9 @@ func c08Run(p *Plan, x *Ctx, out *Outcome) {
 			calc := calculator.NewExpressionCalculator()
 			calc.SetVariantOperations(ops)
 			funcs := functions.NewDefaultFunctionCollection()
+			boomK := 0 // selects what the delegate panics with (texts, errors, values that are awkward to report)
 			funcs.Add(functions.NewDelegatedFunction("Boom", func(params []*variants.Variant, o variants.IVariantOperations) (*variants.Variant, error) {
-				panic("delegate exploded")
+				panic(PanicValue(boomK))
 			}))
 			// call evaluates name(args) directly through the IFunction seam or through an expression
 			call := func(r *c08Res, name string, args []Val, viaExpr bool) {
@@ -376,6 +377,7 @@ func c08Run(p *Plan, x *Ctx, out *Outcome) {
 						r.res = variants.VariantFromInteger(fresh.Length())
 					}()
 				case "panicfn":
+					boomK = o.J
 					call(r, "boom", nil, o.I == 1)
 				default:
 					r.done = false
